@@ -39,6 +39,8 @@ import (
 
 var dsGenesisTime = time.Date(2022, 3, 1, 12, 0, 0, 0, time.UTC)
 
+func dsSetClock(now time.Time) { tmtime.SetVerifClock(func() time.Time { return now }) }
+
 func dsPinClock() {
 	now := dsGenesisTime.Add(time.Hour)
 	tmtime.SetVerifClock(func() time.Time { return now })
